@@ -161,6 +161,9 @@ func Generate(seed uint64, prop, tier string) *Plan {
 	c.Loops = r.Pick(1, 1, 2, 3, 4)
 	if prop == "C15" {
 		c.Loops = r.Pick(1, 2, 3, 4, 5, 7, 8)
+		if r.Chance(1, 8) {
+			c.Loops = r.Pick(17, 24, 33) // more loops than any fixed-size scan window or cache line of counters
+		}
 		if tier == "thorough" && r.Chance(1, 20) {
 			c.Loops = r.Pick(16, 64, 256)
 		}
